@@ -28,6 +28,15 @@ class Machinery(Exception):
     """The verification machinery itself failed (exit 2)."""
 
 
+class WorkerKilled(Machinery):
+    """A worker process - an interpreter running the library under check - was killed by a signal (SIGSEGV,
+    SIGFPE, SIGBUS ...).  The library crashed the interpreter: reported as a violation, not as a machinery fault."""
+
+    def __init__(self, script, signum, request, stderr):
+        Machinery.__init__(self, "worker %s was killed by signal %d\n%s" % (script, signum, stderr[-2000:]))
+        self.script, self.signum, self.request = script, signum, request
+
+
 class NotEvaluable(Machinery):
     """TLC could not evaluate a trace module on the recorded events."""
 
@@ -365,6 +374,8 @@ def run_worker(script, request, dll_dir, timeout=3600, extra_env=None, python=VE
     p = subprocess.run([python, path], input=json.dumps(request), capture_output=True,
                        text=True, timeout=timeout, env=worker_env(dll_dir, extra_env),
                        cwd=dll_dir)
+    if p.returncode < 0 and -p.returncode not in (9, 15):      # killed by a signal that nobody sent: a crash
+        raise WorkerKilled(os.path.basename(script), -p.returncode, request, p.stderr)
     if p.returncode != 0:
         raise Machinery("worker %s failed rc=%s\n%s" % (script, p.returncode, p.stderr[-4000:]))
     out = []
@@ -522,6 +533,17 @@ def main(prop, level, run):
     chk = Check(prop, level, tier, a.seed)
     try:
         run(chk, a)
+        rc = chk.finish()
+    except WorkerKilled as ex:
+        # the interpreter running the library died from a signal while working through its scenarios
+        req = ex.request if isinstance(ex.request, dict) else {}
+        small = json.loads(json.dumps(req))
+        for k in ("scenarios", "jobs"):
+            if isinstance(small.get(k), list) and len(small[k]) > 40:
+                small[k] = small[k][:40]
+        chk.violation({"clause": "library-crashed-the-interpreter", "signal": ex.signum, "worker": ex.script},
+                      {"scenario": {"worker": ex.script, "request": small}, "clause": "library-crashed-the-interpreter",
+                       "detail": str(ex)[:1500]})
         rc = chk.finish()
     except Machinery as ex:
         log("MACHINERY-FAILURE property=%s: %s" % (prop, ex))
